@@ -35,7 +35,7 @@ def pairs(only, props):
             br = meta["breaks"] if isinstance(meta["breaks"], list) else [meta["breaks"]]
             out += [("seeded/" + d.name, p, "revert") for p in br]
     if only in (None, "seeds"):
-        for d in sorted(list((V / "seeded").glob("seed-*")) + list((V / "seeded").glob("seed2-*")) + list((V / "seeded").glob("seed3-*"))):
+        for d in sorted(list((V / "seeded").glob("seed*-C*"))):
             meta = json.loads((d / "meta.json").read_text())
             if meta.get("obsolete"):
                 continue
